@@ -566,6 +566,7 @@ def gen_structured(rng, with_macros=True):
                     mk.append(Node('Params\n{"p": 1}'))
                 if rng.random() < 0.7:
                     mk.append(Node('Result\n{"r": 1}'))
+                rng.shuffle(mk)     # the children of a Method have no prescribed order
                 kids.append(Node("Method m%d_%d" % (i, j), mk))
             blocks.append(Node("URL /rpc%d" % i, kids))
     rng.shuffle(blocks)
